@@ -17,14 +17,23 @@ def interp():
     return _INTERP
 
 
+_SERIAL = [0]
+
+
+def next_serial():
+    _SERIAL[0] += 1
+    return _SERIAL[0]
+
+
 class SObj:
-    __slots__ = ("cls", "fields", "fresh", "tag")
+    __slots__ = ("cls", "fields", "fresh", "tag", "serial")
 
     def __init__(self, cls, fields=None, fresh=True, tag=None):
         object.__setattr__(self, "cls", cls)
         object.__setattr__(self, "fields", dict(fields or {}))
         object.__setattr__(self, "fresh", fresh)
         object.__setattr__(self, "tag", tag)
+        object.__setattr__(self, "serial", next_serial())
 
     # attribute protocol for *spec* code: full Python lookup through the interpreter
     def __getattr__(self, name):
@@ -188,6 +197,10 @@ def values_equal(a, b):
         if la is None or lb is None or len(la) != len(lb):
             return False
         return And([x == y for x, y in zip(la, lb)])
+    if isinstance(a, SymSet) or isinstance(b, SymSet):
+        if isinstance(a, SymSet):
+            return a.equals(b)
+        return b.equals(a)
     if isinstance(a, (set, frozenset)) and isinstance(b, (set, frozenset)):
         return a == b
     if type(a) is not type(b):
@@ -223,6 +236,104 @@ def _streq(a, b):
     if OPAQUE in a or OPAQUE in b:
         return True     # opaque text: content not modelled, only totality
     return a == b
+
+
+class SymSet:
+    """set of hashable concrete elements with symbolic membership: elem -> truth value."""
+
+    def __init__(self, mem=None):
+        self.mem = dict(mem or {})
+
+    @staticmethod
+    def of(x):
+        if isinstance(x, SymSet):
+            return x
+        return SymSet({e: True for e in x})
+
+    def copy(self):
+        return SymSet(self.mem)
+
+    def member(self, e):
+        from .spec import Or
+        if is_sym(e):
+            return Or([And_(e == k, c) for k, c in self.mem.items() if isinstance(k, int)])
+        return self.mem.get(e, False)
+
+    def elements(self):
+        """(elem, cond) pairs in a deterministic order, impossible members dropped"""
+        try:
+            keys = sorted(self.mem)
+        except TypeError:
+            keys = list(self.mem)
+        return [(k, self.mem[k]) for k in keys if self.mem[k] is not False]
+
+    def add_if(self, cond, e):
+        from .spec import Or
+        if is_sym(e):
+            raise Unsupported("symbolic element added to a set")
+        self.mem[e] = Or(self.mem.get(e, False), cond)
+
+    def discard_if(self, cond, e):
+        from .spec import And, Not
+        if is_sym(e):
+            raise Unsupported("symbolic element removed from a set")
+        if e in self.mem:
+            self.mem[e] = And(self.mem[e], Not(cond))
+
+    def __sub__(self, o):
+        from .spec import And, Not
+        o = SymSet.of(o)
+        return SymSet({k: And(c, Not(o.mem.get(k, False))) for k, c in self.mem.items()})
+
+    def __rsub__(self, o):
+        return SymSet.of(o).__sub__(self)
+
+    def __or__(self, o):
+        from .spec import Or
+        o = SymSet.of(o)
+        return SymSet({k: Or(self.mem.get(k, False), o.mem.get(k, False)) for k in set(self.mem) | set(o.mem)})
+    __ror__ = __or__
+
+    def __and__(self, o):
+        from .spec import And
+        o = SymSet.of(o)
+        return SymSet({k: And(self.mem.get(k, False), o.mem.get(k, False)) for k in set(self.mem) & set(o.mem)})
+    __rand__ = __and__
+
+    def __xor__(self, o):
+        from .spec import And, Or, Not
+        o = SymSet.of(o)
+        out = {}
+        for k in set(self.mem) | set(o.mem):
+            a, b = self.mem.get(k, False), o.mem.get(k, False)
+            out[k] = Or(And(a, Not(b)), And(b, Not(a)))
+        return SymSet(out)
+    __rxor__ = __xor__
+
+    def equals(self, o):
+        from .spec import And, Iff
+        o = SymSet.of(o) if isinstance(o, (set, frozenset, SymSet)) else None
+        if o is None:
+            return False
+        return And([Iff(self.mem.get(k, False), o.mem.get(k, False)) for k in set(self.mem) | set(o.mem)])
+
+    def count(self):
+        from .spec import ite
+        n = 0
+        for k, c in self.mem.items():
+            n = n + ite(c, 1, 0)
+        return n
+
+    def __hash__(self):
+        return id(self)
+
+    def __repr__(self):
+        return "SymSet(%r)" % (self.mem,)
+
+
+def And_(a, b):
+    from .spec import And
+    return And(a, b)
 
 
 class SBytes:
@@ -267,7 +378,7 @@ def mk_bytes(items):
 
 
 def contains_sym(v, depth=0):
-    if is_sym(v) or isinstance(v, (SObj, SBytes)):
+    if is_sym(v) or isinstance(v, (SObj, SBytes, SymSet)):
         return True
     if depth > 4:
         return False
